@@ -10,6 +10,7 @@ Pure lines (no sequence):
 Sequence lines:
   gauge.begin   minDur
   gauge.sfgauge gid denom dur now               -- swap-fee gauge created by pool creation (creates the epoch record)
+  gauge.sfxfer  gid <ok|err> amount             -- result of the real TransferFundsForSwapFeeDistribution for this gauge in this block
   gauge.create  gid denom deposit total start now dur funds aux <ok|err> <ok:csv|panic|none>   -- last: real split(deposit,total)
   gauge.fund    denom amount
   gauge.xnew    kind eid denom amount days minLock now first funds aux <ok|err>   -- external programme (kind L locker, V vault, B lend); now in s
@@ -91,6 +92,9 @@ structure St where
   epochs : List Epoch := []
   now : Int := 0
   dists : List DistIn := []
+  sfx : List (Nat × Xfer) := []                    -- outcome of the swap-fee transfer per swap-fee gauge reached in this block
+  leaked : List (String × Int) := []               -- per denomination: coins paid by swap-fee triggers that were not booked (D37), cumulative
+  leakNow : List (String × Int) := []              -- … in the current block
   shareIns : List ShareIn := []
   lendIns : List LendIn := []
   xouts : List XOut := []
@@ -227,6 +231,8 @@ def floatHypOn (raw : Int) (bits : Nat) : Bool :=
 /-! ### the model block -/
 
 def gaugesOf (st : St) (d : String) : List GRec := st.gs.filter (fun r => r.denom = d && !r.sf)
+def sfsOf (st : St) (d : String) : List GRec := st.gs.filter (fun r => r.denom = d && r.sf)
+def toSf (r : GRec) : SfGauge := { deposit := r.g.deposit, distributed := r.g.distributed, triggered := r.g.triggered }
 def extsOf (st : St) (d : String) : List XRec := st.xs.filter (·.denom = d)
 
 def idxOf (l : List Nat) (x : Nat) : Option Nat :=
@@ -253,9 +259,19 @@ def idxOfKey (l : List (String × Nat)) (x : String × Nat) : Option Nat :=
 def blockOps (st : St) (d : String) (trigDurs : List Int) : Except String (List BOp) := do
   let mine := gaugesOf st d
   let gids := mine.map (·.gid)
+  let sfids := (sfsOf st d).map (·.gid)
   let mut ops : List BOp := []
   for dur in trigDurs do
     for r in st.gs do
+      if r.dur = dur && r.denom = d && r.sf then
+        match idxOf sfids r.gid with
+        | none => throw "swap-fee gauge index"
+        | some i =>
+          let dd := match distFor st r.gid with | some di => di.d | none => DistData.err
+          if r.g.deposit > 0 && (distFor st r.gid).isNone then throw s!"no gauge.dist line for swap-fee gauge {r.gid}"
+          match st.sfx.find? (·.1 = r.gid) with
+          | none => throw s!"no gauge.sfxfer line for swap-fee gauge {r.gid}"
+          | some (_, x) => ops := ops ++ [BOp.sfTrigger i dd x]
       if r.dur = dur && r.denom = d && !r.sf then
         match idxOf gids r.gid with
         | none => throw "gauge index"
@@ -279,13 +295,34 @@ def blockOps (st : St) (d : String) (trigDurs : List Int) : Except String (List 
   return ops
 
 def ledgerOf (st : St) (d : String) : Ledger :=
-  { bal := lookupBal st.bals d, gauges := (gaugesOf st d).map (·.g), exts := (extsOf st d).map (·.x) }
+  { bal := lookupBal st.bals d, gauges := (gaugesOf st d).map (·.g), exts := (extsOf st d).map (·.x), sfs := (sfsOf st d).map toSf }
+
+/-- coins a swap-fee trigger of this block pays without booking them (`sfLeak`), per the model run on the block's inputs -/
+def leakOf (st : St) (d : String) (trigDurs : List Int) : Int :=
+  trigDurs.foldl (fun acc dur =>
+    st.gs.foldl (fun acc r =>
+      if r.dur = dur && r.denom = d && r.sf then
+        let dd := match distFor st r.gid with | some di => di.d | none => DistData.err
+        match st.sfx.find? (·.1 = r.gid) with
+        | some (_, .err) => (match sfTrigger (toSf r) dd .err with | .ok (_, sends, _) => acc + sumL sends | .error _ => acc)
+        | _ => acc
+      else acc) acc) 0
 
 /-- predicted per-farmer payouts of one denomination (sends in execution order against the running balance) -/
 def paidOf (st : St) (d : String) (trigDurs : List Int) : List (Nat × Int) :=
   let step1 := trigDurs.foldl (fun (acc : Int × List (Nat × Int)) dur =>
     st.gs.foldl (fun (acc : Int × List (Nat × Int)) r =>
-      if r.dur = dur && r.denom = d && !r.sf then
+      if r.dur = dur && r.denom = d && r.sf then
+        match distFor st r.gid, st.sfx.find? (·.1 = r.gid) with
+        | some di, some (_, x) =>
+          match sfTrigger (toSf r) di.d x with
+          | .ok (_, sends, recv) =>
+            let (b, got) := sendAll acc.1 sends
+            (b + recv, acc.2 ++ di.recv.zip got)
+          | .error _ => acc
+        | none, some (_, .ok amt) => (acc.1 + amt, acc.2)
+        | _, _ => acc
+      else if r.dur = dur && r.denom = d && !r.sf then
         match distFor st r.gid with
         | none => acc
         | some di =>
@@ -359,7 +396,7 @@ def xBlock (st : St) : Except String (Option (List XOut)) := do
 def runBlock (st0 : St) : St × List String :=
   let base := { st0 with prevGs := st0.gs, prevXs := st0.xs, prevBals := st0.bals, xouts := [] }
   let unchanged (msgs : List String) : St × List String :=
-    ({ base with predGs := st0.gs, predXs := st0.xs, predBals := st0.bals, predEpochs := st0.epochs, predPaid := [] }, msgs)
+    ({ base with predGs := st0.gs, predXs := st0.xs, predBals := st0.bals, predEpochs := st0.epochs, predPaid := [], leakNow := [] }, msgs)
   match xBlock st0 with
   | .error msg => unchanged [s!"BAD\t-\t{msg}"]
   | .ok none => unchanged []
@@ -378,10 +415,16 @@ def runBlock (st0 : St) : St × List String :=
   | .ok (_, true) => unchanged []
   | .ok (ls, false) =>
     let predGs := st.gs.map (fun r =>
-      if r.sf then r else
       match ls.find? (·.1 = r.denom) with
       | none => r
       | some (_, l) =>
+        if r.sf then
+          match idxOf ((sfsOf st r.denom).map (·.gid)) r.gid with
+          | none => r
+          | some i => match l.sfs[i]? with
+            | some g => { r with g := { r.g with deposit := g.deposit, distributed := g.distributed, triggered := g.triggered } }
+            | none => r
+        else
         match idxOf ((gaugesOf st r.denom).map (·.gid)) r.gid with
         | none => r
         | some i => match l.gauges[i]? with | some g => { r with g := g } | none => r)
@@ -402,14 +445,26 @@ def runBlock (st0 : St) : St × List String :=
           | none => out) []
     let predBals := ls.foldl (fun b p => setBal b p.1 p.2.bal) st.bals
     let paid := ds.foldl (fun acc d => acc ++ (paidOf st d trigDurs).map (fun p => (d, p.1, p.2))) []
+    let leakNow := (ds.map (fun d => (d, leakOf st d trigDurs))).filter (fun p => p.2 ≠ 0)
+    let leaked := leakNow.foldl (fun acc p => setBal acc p.1 (lookupBal acc p.1 + p.2)) st.leaked
     ({ base with predGs := predGs, predXs := predXs, predBals := predBals, predEpochs := es',
-                 predPaid := sortPaid (mergePaid paid) }, bad)
+                 predPaid := sortPaid (mergePaid paid), leakNow := leakNow, leaked := leaked }, bad)
 
 /-! ### per-block monitors on the REAL records -/
 
 def gaugeMons (tag : String) (prev : List GRec) (real : List GRec) : List String :=
   real.foldl (fun out r =>
-    if r.sf then out else
+    if r.sf then
+      -- swap-fee gauge: an epoch books at most what was collected at the previous epoch; the deposit stays non-negative
+      match prev.find? (·.gid = r.gid) with
+      | none => out
+      | some p =>
+        let paid := r.g.distributed - p.g.distributed
+        let ok := decide (0 ≤ r.g.deposit) && decide (0 ≤ paid) &&
+          (if r.g.triggered = p.g.triggered + 1 then decide (paid ≤ p.g.deposit) || decide (paid = 0)
+           else decide (r.g.triggered = p.g.triggered) && decide (paid = 0) && decide (r.g.deposit = p.g.deposit))
+        if ok then out else out ++ [s!"MON\t{tag}\tsf_epoch_cap\tgauge={r.gid}"]
+    else
     let cum := gaugeOk r.g &&
       decide (r.g.distributed ≤ (prefixSum r.g.deposit.toNat r.g.total r.g.triggered : Int))
     let o1 := if cum then [] else [s!"MON\t{tag}\tcumulative_cap\tgauge={r.gid}"]
@@ -434,9 +489,14 @@ def custodyMons (tag : String) (st : St) : List String :=
     let gs := (st.gs.filter (·.denom = d)).map (fun r => if r.sf then { r.g with distributed := 0 } else r.g)
     let xs := (extsOf st d).map (·.x)
     let nonSf := (gaugesOf st d).map (·.g)
-    let ok := decide (remGauges gs + remExts xs ≤ lookupBal st.bals d) && nonSf.all gaugeOk
+    -- coins that swap-fee triggers paid without booking them (finding D37, `sf_gauge_leak_counterexample`) are accounted
+    -- for under their own monitor name, so that `custody` stays sharp for every other cause
+    let lk := lookupBal st.leaked d
+    let ok := decide (remGauges gs + remExts xs ≤ lookupBal st.bals d + lk) && nonSf.all gaugeOk
+    let okLeak := decide (lk = 0) || decide (remGauges gs + remExts xs ≤ lookupBal st.bals d)
     let okx := xs.all (fun x => decide (0 ≤ x.avail))
     out ++ (if ok then [] else [s!"MON\t{tag}\tcustody\tdenom={d}"])
+        ++ (if okLeak then [] else [s!"MON\t{tag}\tcustody_sf_leak\tdenom={d} unbooked={lk}"])
         ++ (if okx then [] else [s!"MON\t{tag}\tcustody_ext_overpaid\tdenom={d}"])) []
 
 /-- bank-side epoch cap: what left the module account in this block is covered by the allocations of the
@@ -449,8 +509,13 @@ def outflowMons (tag : String) (st : St) : List String :=
       | none => 0))
     let extd := sumL ((extsOf st d).map (fun r =>
       match st.prevXs.find? (fun q => q.kind = r.kind && q.eid = r.eid) with | some p => p.x.avail - r.x.avail | none => 0))
-    if lookupBal st.prevBals d - lookupBal st.bals d ≤ allocs + extd then out
-    else out ++ [s!"MON\t{tag}\tepoch_cap\tdenom={d} outflow"]) []
+    -- swap-fee gauges: what they booked as distributed; coins arriving from the fee collectors only raise the balance
+    let sfd := sumL ((st.gs.filter (fun r => r.denom = d && r.sf)).map (fun r =>
+      match st.prevGs.find? (·.gid = r.gid) with | some p => r.g.distributed - p.g.distributed | none => 0))
+    let lk := lookupBal st.leakNow d
+    (if lookupBal st.prevBals d - lookupBal st.bals d ≤ allocs + extd + sfd + lk then out
+     else out ++ [s!"MON\t{tag}\tepoch_cap\tdenom={d} outflow"])
+      ++ (if lk = 0 then [] else [s!"MON\t{tag}\tsf_leak\tdenom={d} paid-but-not-booked={lk}"])) []
 
 /-- external programmes, on the REAL records after the block (`prev` = the real records before it):
 `ext_epoch_cap`       the clause as worded: an epoch books at most `AvailableRewards / daysLeft`, nothing is booked otherwise
@@ -611,7 +676,7 @@ def handle (st : St) (seq : String) (f : List String) : St × List String :=
     | _, _, _, _, _, _, _, _ => (st, [s!"BAD\t{seq}\txnew"])
   | ["gauge.block", now] =>
     match parseInt? now with
-    | some now => ({ st with now := now, dists := [], shareIns := [], lendIns := [], xouts := [] }, [])
+    | some now => ({ st with now := now, dists := [], sfx := [], leakNow := [], shareIns := [], lendIns := [], xouts := [] }, [])
     | none => (st, [s!"BAD\t{seq}\tblock"])
   | ["gauge.dist", gid, alloc, mode, mpos, cpos, outcome, recv, rewards] =>
     match parseNat? gid, parseInt? alloc, parseFarmers mpos cpos, csvNats recv, csvInts rewards with
@@ -624,13 +689,20 @@ def handle (st : St) (seq : String) (f : List String) : St × List String :=
       let mon := if outcome = "ok" then shareMons seq a el rewards else []
       -- the gauge's own allocation must be the one the harness asked the share computation about
       let da := match st.gs.find? (·.gid = gid) with
-        | some r => match allocation r.g with
+        | some r =>
+          if r.sf then (if r.g.deposit = a then [] else [s!"DIFF\t{seq}\tswap-fee gauge deposit model={r.g.deposit}\timpl={a}"]) else
+          match allocation r.g with
           | .ok (some a') => if a' = a then [] else [s!"DIFF\t{seq}\tallocation model={a'}\timpl={a}"]
           | _ => [s!"DIFF\t{seq}\tallocation model=none\timpl={a}"]
         | none => [s!"BAD\t{seq}\tdist for unknown gauge"]
       let dd : DistData := if outcome = "err" then .err else if outcome = "panic" then .ok [-1] else .ok rewards
       ({ st with dists := st.dists ++ [{ gid := gid, d := dd, recv := recv }] }, d ++ mon ++ da)
     | _, _, _, _, _ => (st, [s!"BAD\t{seq}\tdist"])
+  | ["gauge.sfxfer", gid, outcome, amount] =>
+    match parseNat? gid, parseNat? amount with
+    | some gid, some amount =>
+      ({ st with sfx := st.sfx ++ [(gid, if outcome = "ok" then Xfer.ok amount else Xfer.err)] }, [])
+    | _, _ => (st, [s!"BAD\t{seq}\tsfxfer"])
   | ["gauge.xshare", kind, eid, halt, total, users] =>
     match parseNat? eid, parseBool? halt, parseInt? total, (if users = "-" || users = "" then some [] else (users.splitOn ",").mapM (fun e => parseUser (e.splitOn ":"))) with
     | some eid, some halt, some total, some us =>
@@ -658,7 +730,11 @@ def handle (st : St) (seq : String) (f : List String) : St × List String :=
     match recList recs parseG with
     | some real =>
       let cmp := real.foldl (fun out r =>
-        if r.sf then out else
+        if r.sf then
+          match st.predGs.find? (·.gid = r.gid) with
+          | some p => if toSf p = toSf r then out else out ++ [s!"DIFF\t{seq}\tswap-fee gauge model={showG p}\timpl={showG r}"]
+          | none => out ++ [s!"DIFF\t{seq}\tswap-fee gauge {r.gid} unknown to the model"]
+        else
         match st.predGs.find? (·.gid = r.gid) with
         | some p => if p.g = r.g then out else out ++ [s!"DIFF\t{seq}\tgauge model={showG p}\timpl={showG r}"]
         | none => out ++ [s!"DIFF\t{seq}\tgauge {r.gid} unknown to the model"]) []
